@@ -530,4 +530,51 @@ def r5_globals(ctx):
         r.check(ok, "inflator/push@%s" % v[:24], "pushed value depends only on the previous entry (%s)" % v[:80], "pushed value %s depends on more than the previous entry" % v[:120], c.where(bi))
 
 
-RULES = [r1_inventory, r2_batch_commutativity, r3_ambient, r4_commitment_order, r5_globals]
+MUTABLE_SHARED = ("RwLock<", "Mutex<", "Atomic", "RefCell<", "Cell<", "DashMap<", "mpsc::", "OnceCell<", "Condvar", "&mut ")
+
+
+def r6_parallel_isolation(ctx):
+    r = ctx.rule("R6", "closures run by rayon (par_iter adapters) capture no shared mutable state (locks, atomics, cells, &mut): one transaction's validation cannot observe another's")
+    prog = ctx.prog
+    n = 0
+    for b in prog.bodies:
+        if b.kind == "Promoted" or b.crate != "melstf":
+            continue
+        for bi, t in b.calls():
+            nm = mir.callee_name(t)
+            if "rayon" not in nm and "ParallelIterator" not in mir.callee_path(t):
+                continue
+            for a in t["args"]:
+                if a["k"] not in ("move", "copy"):
+                    continue
+                l = a["place"]["l"]
+                ds = b.defs().get(l, [])
+                for (db_, di) in ds:
+                    if di == "T":
+                        continue
+                    st = b.blocks[db_]["stmts"][di]
+                    rv = st["rv"]
+                    if rv["k"] == "agg" and rv["ak"] == "closure":
+                        n += 1
+                        cname = mir.norm_name(rv["path"]).split("::")[-1]
+                        bad = []
+                        for fname, op in zip(rv["fields"], rv["ops"]):
+                            if op["k"] in ("move", "copy"):
+                                ty = b.locals[op["place"]["l"]]["ty"]
+                                # type of the captured place: follow one deref of a reference local
+                                if any(w in ty for w in MUTABLE_SHARED):
+                                    bad.append((fname.replace("_ref__", ""), ty[:80]))
+                        key = "%s/%s" % (b.nname.split("::")[-1], cname.replace("{closure#", "c").replace("}", ""))
+                        if bad:
+                            r.violation("shared-mutable/" + key, "the closure handed to %s captures shared mutable state %s: the result can depend on scheduling and on the order of the batch" % (mir.short(nm), bad), b.where(bi))
+                        else:
+                            r.ok("isolated/" + key, "captures: %s" % [f.replace("_ref__", "") for f in rv["fields"]], b.where(bi))
+    r.floor("parallel closures", n, 6)
+    # functions reachable from the validity closure take no lock/atomic parameters
+    v = prog.body("melstf::state::applytx::check_tx_validity")
+    if v is not None:
+        bad = [s_ for s_ in v.sig_inputs if any(w in s_ for w in MUTABLE_SHARED)]
+        r.check(not bad, "check_tx_validity/params", "check_tx_validity takes only shared immutable inputs", "check_tx_validity takes %s" % bad)
+
+
+RULES = [r1_inventory, r2_batch_commutativity, r3_ambient, r4_commitment_order, r5_globals, r6_parallel_isolation]
